@@ -613,3 +613,40 @@ def sibling_mdp_spec(spec, rng_int):
         sp['gamma'] = others[rng_int % len(others)]
         changed = True
     return sp
+
+
+def nested_variant_spec(spec, rng_int):
+    """The problem a nested or overlapping run (fault F10) works on: same state and action keys as `spec`, but a different
+    model - the sibling of `sibling_mdp_spec` (another absorbing set and/or discount) with the positive probabilities of
+    every (state, action) rotated among its positive-probability successors (the support, hence proper-ness, is kept) and
+    every reward r replaced by r/2 - 1/4.  Anything one run leaks into the other is then wrong for the other."""
+    import copy
+    sp = sibling_mdp_spec(spec, rng_int) or copy.deepcopy(spec)
+    absb = set(sp['absorbing'])
+    for tr in sp['trans']:
+        if tr[0] in absb:
+            continue
+        outs = tr[2]
+        pos = [o for o in outs if o[1] > 0]
+        if len(pos) > 1:
+            ps = [o[1] for o in pos]
+            ps = ps[1:] + ps[:1]
+            for o, p in zip(pos, ps):
+                o[1] = p
+        for o in outs:
+            o[2] = o[2] * 0.5 - 0.25
+    return sp
+
+
+def nested_graph_variant(spec, k):
+    """The graph a nested search (fault F10) works on: same state and action keys, every edge re-targeted and one dearer,
+    other goals."""
+    import copy
+    sp = copy.deepcopy(spec)
+    n = sp['n']
+    for e in sp['edges']:
+        e[2] = (e[2] + 1 + k) % n
+        e[3] = (e[3] % 10) + 1
+    sp['goals'] = sorted({(g + 1 + k) % n for g in sp['goals']} or {k % n})
+    sp.pop('giant', None)
+    return sp
